@@ -159,7 +159,7 @@ Local Notation C := (exp_core img s).
 Local Notation EF := (exp_file img s).
 
 Lemma wf_len : zlen img < FILE_LIMIT.
-Proof. unfold wf_image in Hwf. rewrite !andb_true_iff in Hwf. lia. Qed.
+Proof. unfold wf_image in Hwf. rewrite !andb_true_iff, zlenT_eq in Hwf. lia. Qed.
 Lemma wf_ehdr : ehdr_ok img s = true.
 Proof. unfold wf_image in Hwf. rewrite !andb_true_iff in Hwf. tauto. Qed.
 Lemma wf_counts : counts_ok s = true.
@@ -258,7 +258,7 @@ Proof.
   replace (e_shentsize (i_ehdr s) <? (if i_is64 s then 64 else 40)) with false
     by (symmetry; apply Z.ltb_ge; exact Hsz).
   rewrite andb_false_r. cbn [bind].
-  change (stream_len C) with (zlen img).
+  rewrite (stream_len_eq C); change (c_img C) with img.
   replace (zlen img <? e_shoff (i_ehdr s) + i * e_shentsize (i_ehdr s)) with false
     by (symmetry; apply Z.ltb_ge; lia).
   rewrite core_shb. change (c_img C) with img. rewrite Hparse. reflexivity.
@@ -400,7 +400,7 @@ Proof.
   { eapply record_inside; [exact Hpos|exact Ht|]. destruct (fst x); discriminate. }
   pose proof wf_len as Hl.
   destruct (Z.leb_spec SEEK_LIMIT pos) as [E|_]; [rewrite SEEK_LIMIT_val in E; lia|].
-  change (stream_len C) with (zlen img). destruct (Z.leb_spec (zlen img) pos) as [E|_]; [lia|].
+  rewrite (stream_len_eq C); change (c_img C) with img. destruct (Z.leb_spec (zlen img) pos) as [E|_]; [lia|].
   change (c_img C) with img.
   assert (Hle : (Z.to_nat pos <= length img)%nat) by (unfold zlen in Hlt; lia).
   destruct (skipn_split _ _ _ _ Ht Hle) as [Himg Hfl].
